@@ -19,14 +19,19 @@ structure Frame where
   closure : Option Nat
 deriving DecidableEq, Repr, Inhabited
 
-structure VmState where
+/-- the part of the machine state that data instructions work on -/
+structure Core where
   stack : List Val := []          -- bottom first
-  frames : List Frame := []       -- innermost first
   ip : Nat := 0
-  curFn : Nat := 0
   globals : List Val := []        -- `globals[0 .. global_count)`
   heap : Heap := {}
   out : Bytes := []
+deriving Repr, Inhabited
+
+/-- full VM state: data part plus the call stack and the current function -/
+structure VmState extends Core where
+  frames : List Frame := []       -- innermost first
+  curFn : Nat := 0
 deriving Repr, Inhabited
 
 inductive Outcome
@@ -34,32 +39,59 @@ inductive Outcome
   | done                          -- VM_OK
   | err (code : Nat)              -- VmResult ≠ OK
   | unsupported (why : String)    -- outside the modelled fragment
-  | oob (why : String)            -- the C code would index outside an array it owns
+  | oob (why : String)            -- the C code would index outside the frame array / function table / code section
+  | dangling (why : String)       -- the C code would touch a freed heap object
 deriving DecidableEq, Repr, Inhabited
 
+/-- the run-time faults an instruction handler can raise (`trap_error` codes other than
+    the decoder's) -/
+inductive RtErr | typeError | outOfBounds | assertFailed | callDepth | undefinedFunction
+deriving DecidableEq, Repr, Inhabited
+
+def RtErr.code : RtErr → Nat
+  | .typeError => Gen.vmErr_typeError
+  | .outOfBounds => Gen.vmErr_outOfBounds
+  | .assertFailed => Gen.vmErr_assertFailed
+  | .callDepth => Gen.vmErr_callDepth
+  | .undefinedFunction => Gen.vmErr_undefinedFunction
+
+/-- outcome of a data instruction: by construction it can neither be a decoder error nor an
+    out-of-bounds access to the VM's own tables -/
+inductive DOutcome
+  | running | done | err (e : RtErr) | unsupported (why : String) | dangling (why : String)
+deriving DecidableEq, Repr, Inhabited
+
+def DOutcome.toOutcome : DOutcome → Outcome
+  | .running => .running
+  | .done => .done
+  | .err e => .err e.code
+  | .unsupported w => .unsupported w
+  | .dangling w => .dangling w
+
 abbrev Step := VmState × Outcome
+abbrev CStep := Core × DOutcome
 
 /-! ### stack helpers (`stack_push`, `stack_pop`, `stack_peek`) -/
 
-def VmState.push (s : VmState) (v : Val) : VmState := { s with stack := s.stack ++ [v] }
+def Core.push (s : Core) (v : Val) : Core := { s with stack := s.stack ++ [v] }
 
-def VmState.pop (s : VmState) : VmState × Val :=
+def Core.pop (s : Core) : Core × Val :=
   match s.stack.getLast? with
   | none => (s, .void)
   | some v => ({ s with stack := s.stack.dropLast }, v)
 
-def VmState.peek (s : VmState) (off : Nat) : Val :=
+def Core.peek (s : Core) (off : Nat) : Val :=
   if off ≥ s.stack.length then .void else s.stack.getD (s.stack.length - 1 - off) .void
 
 /-- pop `n` values; the result is in stack order, padded with void at the front when the
     stack runs out (`elems[n-1-i] = stack_pop()` for i = 0 … n-1) -/
-def VmState.popN (s : VmState) (n : Nat) : VmState × List Val :=
+def Core.popN (s : Core) (n : Nat) : Core × List Val :=
   let k := min n s.stack.length
   ({ s with stack := s.stack.take (s.stack.length - k) },
    List.replicate (n - k) .void ++ s.stack.drop (s.stack.length - k))
 
-def VmState.release (s : VmState) (v : Val) : VmState := { s with heap := s.heap.release1 v }
-def VmState.retain (s : VmState) (v : Val) : VmState := { s with heap := s.heap.retain v }
+def Core.release (s : Core) (v : Val) : Core := { s with heap := s.heap.release1 v }
+def Core.retain (s : Core) (v : Val) : Core := { s with heap := s.heap.retain v }
 
 /-! ### value operations (value.c) -/
 
@@ -127,12 +159,18 @@ def strLit (s : String) : Bytes := s.toUTF8.toList
 /-- bytes up to the first NUL (`strlen`, `%s`) -/
 def cstr (b : Bytes) : Bytes := b.takeWhile (· != 0)
 
-/-- `val_print`; `none` = not modelled (floats, closures, hashmaps) or nesting deeper than `fuel` -/
-def fmtVal (h : Heap) : Nat → Val → Option Bytes
-  | 0, _ => none
-  | fuel+1, v =>
-    let fmtList (vs : List Val) : Option (List Bytes) := vs.mapM (fmtVal h fuel)
+/-- `val_print`: `path` is the chain of containers currently being printed (innermost first);
+    a container already on the chain, or nesting ≥ 64, prints as "...".
+    `none` = not modelled (floats, closures, hashmaps). -/
+def fmtVal (h : Heap) : Nat → List Nat → Val → Option Bytes
+  | 0, _, _ => some (strLit "...")
+  | fuel+1, path, v =>
     let join (bs : List Bytes) : Bytes := (bs.intersperse (strLit ", ")).flatten
+    let container (a : Nat) (k : Obj → Option (List Val × (List Bytes → Bytes))) : Option Bytes :=
+      if path.length ≥ 64 || path.contains a then some (strLit "...")
+      else match (h.obj? a).bind k with
+        | some (kids, render) => (kids.mapM (fmtVal h fuel (a :: path))).map render
+        | none => none
     match v with
     | .void => some (strLit "void")
     | .int n => some (intToDec n.toInt)
@@ -145,18 +183,17 @@ def fmtVal (h : Heap) : Nat → Val → Option Bytes
     | .str a => match h.obj? a with
       | some (.str b) => some (cstr b)
       | _ => none
-    | .arr a => match h.obj? a with
-      | some (.arr _ es) => (fmtList es).map fun bs => strLit "[" ++ join bs ++ strLit "]"
+    | .arr a => container a fun
+      | .arr _ es => some (es, fun bs => strLit "[" ++ join bs ++ strLit "]")
       | _ => none
-    | .struct a => match h.obj? a with
-      | some (.struct _ fs) => (fmtList fs).map fun bs => strLit "{" ++ join bs ++ strLit "}"
+    | .struct a => container a fun
+      | .struct _ fs => some (fs, fun bs => strLit "{" ++ join bs ++ strLit "}")
       | _ => none
-    | .union a => match h.obj? a with
-      | some (.union _ var fs) => (fmtList fs).map fun bs =>
-          strLit "variant(" ++ natToDec var ++ (bs.map (strLit ", " ++ ·)).flatten ++ strLit ")"
+    | .union a => container a fun
+      | .union _ var fs => some (fs, fun bs => strLit "variant(" ++ natToDec var ++ (bs.map (strLit ", " ++ ·)).flatten ++ strLit ")")
       | _ => none
-    | .tuple a => match h.obj? a with
-      | some (.tuple es) => (fmtList es).map fun bs => strLit "(" ++ join bs ++ strLit ")"
+    | .tuple a => container a fun
+      | .tuple es => some (es, fun bs => strLit "(" ++ join bs ++ strLit ")")
       | _ => none
 
 /-- `strtoll(s, NULL, 10)` -/
@@ -178,9 +215,10 @@ def isInfix (needle hay : Bytes) : Bool :=
 
 /-! ### the processor: one instruction -/
 
-def errS (s : VmState) (code : Nat) : Step := (s, .err code)
-def unsup (s : VmState) (why : String) : Step := (s, .unsupported why)
-def cont (s : VmState) : Step := (s, .running)
+def errS (s : Core) (e : RtErr) : CStep := (s, .err e)
+def unsup (s : Core) (why : String) : CStep := (s, .unsupported why)
+def cont (s : Core) : CStep := (s, .running)
+def dang (s : Core) (why : String) : CStep := ({ s with heap := s.heap.markDangling }, .dangling why)
 
 def isFloat : Val → Bool | .float _ => true | _ => false
 def isArr : Val → Bool | .arr _ => true | _ => false
@@ -192,19 +230,20 @@ def coerceEnum : Val → Val | .enum v => .int (i64 v) | v => v
 /-- set up a call frame (`OP_CALL`, `OP_CALL_INDIRECT`, `OP_CLOSURE_CALL`) -/
 def enterFn (m : Module) (s : VmState) (callee : Nat) (closure : Option Nat) : Step :=
   match m.functions[callee]? with
-  | none => errS s Gen.vmErr_undefinedFunction
+  | none => (s, .err RtErr.undefinedFunction.code)
   | some fn =>
-    if s.frames.length ≥ Gen.vmMaxFrames then errS s Gen.vmErr_callDepth
+    if s.frames.length ≥ Gen.vmMaxFrames then (s, .err RtErr.callDepth.code)
     else
       let newBase := u32 (s.stack.length + 4294967296 - fn.arity)
-      let s := { s with stack := s.stack ++ List.replicate (fn.localCount - fn.arity) Val.void }
-      cont { s with
-        frames := { fnIdx := callee, returnIp := s.ip, stackBase := newBase,
-                    localCount := fn.localCount, closure := closure } :: s.frames
-        curFn := callee, ip := fn.codeOffset }
+      ({ s with
+          stack := s.stack ++ List.replicate (fn.localCount - fn.arity) Val.void
+          ip := fn.codeOffset
+          frames := { fnIdx := callee, returnIp := s.ip, stackBase := newBase,
+                      localCount := fn.localCount, closure := closure } :: s.frames
+          curFn := callee }, .running)
 
 /-- pop and release everything above `base` (`while (stack_size > stack_base)`) -/
-def unwindTo (s : VmState) (base : Nat) : VmState :=
+def unwindTo (s : Core) (base : Nat) : Core :=
   if s.stack.length > base then
     { s with stack := s.stack.take base, heap := s.heap.release (s.stack.drop base).reverse }
   else s
@@ -215,17 +254,17 @@ def doRet (s : VmState) (implicit : Bool) : Step :=
   match s.frames with
   | [] => if implicit then (s, .done) else (s, .oob "RET with no frame")
   | fr :: rest =>
-    let (s, result) :=
-      if s.stack.length > u32 (fr.stackBase + fr.localCount) then s.pop else (s, .void)
-    let s := unwindTo s fr.stackBase
+    let (c, result) :=
+      if s.stack.length > u32 (fr.stackBase + fr.localCount) then s.toCore.pop else (s.toCore, Val.void)
+    let c := unwindTo c fr.stackBase
     match rest with
-    | [] => ({ s with frames := [] }.push result, .done)
+    | [] => ({ s with toCore := c.push result, frames := [] }, .done)
     | caller :: _ =>
-      let s := { s with frames := rest, curFn := caller.fnIdx,
-                        ip := if implicit then caller.returnIp else fr.returnIp }
-      (s.push result, if implicit then .done else .running)
+      let c := { c with ip := if implicit then caller.returnIp else fr.returnIp }
+      ({ s with toCore := c.push result, frames := rest, curFn := caller.fnIdx },
+        if implicit then .done else .running)
 
-def binArith (s : VmState) (op : Opc) : Step :=
+def binArith (s : Core) (op : Opc) : CStep :=
   let (s, b) := s.pop
   let (s, a) := s.pop
   let (a, b) := if op == .MOD then (a, b) else (coerceEnum a, coerceEnum b)
@@ -239,15 +278,15 @@ def binArith (s : VmState) (op : Opc) : Step :=
       | _ => if y == 0 then 0 else x.srem y
     cont (s.push (.int r))
   | _, _ =>
-    if op == .MOD then errS s Gen.vmErr_typeError
+    if op == .MOD then errS s .typeError
     else if isFloat a || isFloat b then
       (if (isFloat a || a.tag == Gen.tag_int) && (isFloat b || b.tag == Gen.tag_int) then unsup s "float arithmetic"
        else if isArr a || isArr b then unsup s "array arithmetic" else
-         (if op == .ADD then errS ((s.release a).release b) Gen.vmErr_typeError else errS s Gen.vmErr_typeError))
+         (if op == .ADD then errS ((s.release a).release b) .typeError else errS s .typeError))
     else if isArr a || isArr b then
       let scalar (v : Val) : Bool := v.tag == Gen.tag_int || (op == .ADD && v.tag == Gen.tag_string)
       (if (isArr a && (isArr b || scalar b)) || (isArr b && scalar a) then unsup s "array arithmetic"
-       else if op == .ADD then errS ((s.release a).release b) Gen.vmErr_typeError else errS s Gen.vmErr_typeError)
+       else if op == .ADD then errS ((s.release a).release b) .typeError else errS s .typeError)
     else match op, a, b with
       | .ADD, .str _, .str _ =>
         match s.heap.strBytes? a, s.heap.strBytes? b with
@@ -255,11 +294,11 @@ def binArith (s : VmState) (op : Opc) : Step :=
           let (h, r) := s.heap.strNew (ba ++ bb)
           let s := { s with heap := h }
           cont (((s.release a).release b).push r)
-        | _, _ => ({ s with heap := s.heap.markDangling }, .oob "dangling string")
-      | .ADD, _, _ => errS ((s.release a).release b) Gen.vmErr_typeError
-      | _, _, _ => errS s Gen.vmErr_typeError
+        | _, _ => dang s "dangling string"
+      | .ADD, _, _ => errS ((s.release a).release b) .typeError
+      | _, _, _ => errS s .typeError
 
-def binCompare (s : VmState) (f : Heap → Val → Val → Option Bool) : Step :=
+def binCompare (s : Core) (f : Heap → Val → Val → Option Bool) : CStep :=
   let (s, b) := s.pop
   let (s, a) := s.pop
   match f s.heap a b with
@@ -269,10 +308,13 @@ def binCompare (s : VmState) (f : Heap → Val → Val → Option Bool) : Step :
 /-- index checks shared by ARR_GET / ARR_SET / ARR_REMOVE: the int64 index must lie in [0, len) -/
 def idxInRange (idx : I64) (len : Nat) : Bool := 0 ≤ idx.toInt && idx.toInt < (len : Int)
 
-def execInstr (m : Module) (s : VmState) (instrStart : Nat) (op : Opc) (args : List Nat) : Step :=
+/-- every instruction that neither pushes nor pops a call frame; `none` for CALL,
+    CALL_INDIRECT, CLOSURE_CALL and RET.  It sees the current frame read-only. -/
+def execData (m : Module) (fr : Frame) (s : Core) (instrStart : Nat) (op : Opc) (args : List Nat) : Option CStep :=
   let arg (k : Nat) : Nat := args.getD k 0
-  let fr := s.frames.headD default
   match op with
+  | .CALL | .CALL_INDIRECT | .CLOSURE_CALL | .RET => none
+  | _ => some <| match op with
   | .NOP | .DEBUG_LINE | .GC_SCOPE_ENTER | .GC_SCOPE_EXIT => cont s
   | .PUSH_I64 => cont (s.push (.int (i64 (arg 0))))
   | .PUSH_F64 => cont (s.push (.float (i64 (arg 0))))
@@ -302,23 +344,23 @@ def execInstr (m : Module) (s : VmState) (instrStart : Nat) (op : Opc) (args : L
       cont { s with stack := ((s.stack.set (n - 1) b).set (n - 2) c).set (n - 3) a }
   | .LOAD_LOCAL =>
     let abs := u32 (fr.stackBase + arg 0)
-    if abs ≥ s.stack.length then errS s Gen.vmErr_outOfBounds
+    if abs ≥ s.stack.length then errS s .outOfBounds
     else let v := s.stack.getD abs .void; cont ((s.retain v).push v)
   | .STORE_LOCAL =>
     let abs := u32 (fr.stackBase + arg 0)
-    if abs ≥ s.stack.length then errS s Gen.vmErr_outOfBounds
+    if abs ≥ s.stack.length then errS s .outOfBounds
     else
       let (s, v) := s.pop
       -- after the pop the slot may be the popped one itself (abs = old size − 1)
       let old := s.stack.getD abs v
       let s := s.release old
       if abs < s.stack.length then cont { s with stack := s.stack.set abs v }
-      else (s, .oob "STORE_LOCAL writes the slot it just popped")
+      else cont s   -- the slot just popped: the stale copy was released, nothing is stored
   | .LOAD_GLOBAL =>
-    if arg 0 ≥ Gen.vmMaxGlobals then errS s Gen.vmErr_outOfBounds
+    if arg 0 ≥ Gen.vmMaxGlobals then errS s .outOfBounds
     else let v := s.globals.getD (arg 0) .void; cont ((s.retain v).push v)
   | .STORE_GLOBAL =>
-    if arg 0 ≥ Gen.vmMaxGlobals then errS s Gen.vmErr_outOfBounds
+    if arg 0 ≥ Gen.vmMaxGlobals then errS s .outOfBounds
     else
       let (s, v) := s.pop
       let old := s.globals.getD (arg 0) .void
@@ -340,7 +382,7 @@ def execInstr (m : Module) (s : VmState) (instrStart : Nat) (op : Opc) (args : L
         -- re-read: the release cannot free the frame's closure while the frame holds it
         match s.heap.obj? ca with
         | some (.clos fn' caps') => cont { s with heap := s.heap.setObj ca (.clos fn' (caps'.set (arg 1) v)) }
-        | _ => ({ s with heap := s.heap.markDangling }, .oob "closure freed during STORE_UPVALUE")
+        | _ => dang s "closure freed during STORE_UPVALUE"
       else
         let _ := fn
         cont (s.release v)
@@ -351,7 +393,7 @@ def execInstr (m : Module) (s : VmState) (instrStart : Nat) (op : Opc) (args : L
     match a with
     | .int x => cont (s.push (.int (-x)))
     | .float _ => unsup s "float arithmetic"
-    | _ => errS s Gen.vmErr_typeError
+    | _ => errS s .typeError
   | .EQ => binCompare s valEqual
   | .NE => binCompare s (fun h a b => (valEqual h a b).map (!·))
   | .LT => binCompare s (fun h a b => (valCompare h a b).map (· < 0))
@@ -370,30 +412,14 @@ def execInstr (m : Module) (s : VmState) (instrStart : Nat) (op : Opc) (args : L
     let (s, c) := s.pop
     let s := if !truthy c then { s with ip := u32 (((instrStart : Int) + toI32 (arg 0)) % 4294967296).toNat } else s
     cont (s.release c)
-  | .CALL => enterFn m s (arg 0) none
-  | .CALL_INDIRECT =>
-    let (s, f) := s.pop
-    match f with
-    | .clos a => match s.heap.obj? a with
-      | some (.clos fn _) => enterFn m s fn (some a)
-      | _ => ({ s with heap := s.heap.markDangling }, .oob "dangling closure")
-    | _ => errS s Gen.vmErr_typeError
-  | .CLOSURE_CALL =>
-    let (s, f) := s.pop
-    match f with
-    | .clos a => match s.heap.obj? a with
-      | some (.clos fn _) => enterFn m s fn (some a)
-      | _ => ({ s with heap := s.heap.markDangling }, .oob "dangling closure")
-    | _ => errS (s.release f) Gen.vmErr_typeError
-  | .RET => doRet s false
   | .CALL_EXTERN =>
-    if arg 0 ≥ m.imports.length then errS s Gen.vmErr_outOfBounds else unsup s "extern call"
-  | .CALL_MODULE => errS s Gen.vmErr_outOfBounds       -- no linked modules in nano_vm / nano_virt
+    if arg 0 ≥ m.imports.length then errS s .outOfBounds else unsup s "extern call"
+  | .CALL_MODULE => errS s .outOfBounds       -- no linked modules in nano_vm / nano_virt
   | .STR_LEN =>
     let (s, v) := s.pop
     match s.heap.strBytes? v with
     | some b => cont ((s.release v).push (.int (i64 b.length)))
-    | none => errS (s.release v) Gen.vmErr_typeError
+    | none => errS (s.release v) .typeError
   | .STR_CONCAT =>
     let (s, b) := s.pop
     let (s, a) := s.pop
@@ -401,13 +427,13 @@ def execInstr (m : Module) (s : VmState) (instrStart : Nat) (op : Opc) (args : L
     | some ba, some bb =>
       let (h, r) := s.heap.strNew (ba ++ bb)
       cont ((({ s with heap := h }.release a).release b).push r)
-    | _, _ => errS ((s.release a).release b) Gen.vmErr_typeError
+    | _, _ => errS ((s.release a).release b) .typeError
   | .STR_SUBSTR =>
     let (s, lenV) := s.pop
     let (s, startV) := s.pop
     let (s, v) := s.pop
     match s.heap.strBytes? v with
-    | none => errS (s.release v) Gen.vmErr_typeError
+    | none => errS (s.release v) .typeError
     | some b =>
       let start := (asI64 startV).toNat % 4294967296
       let len := (asI64 lenV).toNat % 4294967296
@@ -421,18 +447,18 @@ def execInstr (m : Module) (s : VmState) (instrStart : Nat) (op : Opc) (args : L
     | some bh, some bn =>
       let r := if bn.length == 0 then true else if bn.length > bh.length then false else isInfix (cstr bn) (cstr bh)
       cont (((s.release hay).release n).push (.bool r))
-    | _, _ => errS ((s.release hay).release n) Gen.vmErr_typeError
+    | _, _ => errS ((s.release hay).release n) .typeError
   | .STR_EQ =>
     let (s, b) := s.pop
     let (s, a) := s.pop
     match s.heap.strBytes? a, s.heap.strBytes? b with
     | some ba, some bb => cont (((s.release a).release b).push (.bool (ba == bb)))
-    | _, _ => errS ((s.release a).release b) Gen.vmErr_typeError
+    | _, _ => errS ((s.release a).release b) .typeError
   | .STR_CHAR_AT =>
     let (s, iv) := s.pop
     let (s, v) := s.pop
     match s.heap.strBytes? v with
-    | none => errS (s.release v) Gen.vmErr_typeError
+    | none => errS (s.release v) .typeError
     | some b =>
       let idx := (asI64 iv).toInt
       let cs := cstr b
@@ -452,18 +478,18 @@ def execInstr (m : Module) (s : VmState) (instrStart : Nat) (op : Opc) (args : L
       | some (.arr et es) =>
         let s := { s with heap := (s.heap.setObj a (.arr et (es ++ [v]))).retain v }
         cont ((s.release v).push av)
-      | _ => ({ s with heap := s.heap.markDangling }, .oob "dangling array")
-    | _ => errS ((s.release av).release v) Gen.vmErr_typeError
+      | _ => dang s "dangling array"
+    | _ => errS ((s.release av).release v) .typeError
   | .ARR_POP =>
     let (s, av) := s.pop
     match av with
     | .arr a => match s.heap.obj? a with
       | some (.arr et es) =>
         match es.getLast? with
-        | none => errS (s.release av) Gen.vmErr_outOfBounds
+        | none => errS (s.release av) .outOfBounds
         | some v => cont (({ s with heap := s.heap.setObj a (.arr et es.dropLast) }.push v).push av)
-      | _ => ({ s with heap := s.heap.markDangling }, .oob "dangling array")
-    | _ => errS (s.release av) Gen.vmErr_typeError
+      | _ => dang s "dangling array"
+    | _ => errS (s.release av) .typeError
   | .ARR_GET =>
     let (s, iv) := s.pop
     let (s, av) := s.pop
@@ -473,9 +499,9 @@ def execInstr (m : Module) (s : VmState) (instrStart : Nat) (op : Opc) (args : L
         if idxInRange (asI64 iv) es.length then
           let v := es.getD (asI64 iv).toNat .void
           cont (((s.retain v).release av).push v)
-        else errS (s.release av) Gen.vmErr_outOfBounds
-      | _ => ({ s with heap := s.heap.markDangling }, .oob "dangling array")
-    | _ => errS (s.release av) Gen.vmErr_typeError
+        else errS (s.release av) .outOfBounds
+      | _ => dang s "dangling array"
+    | _ => errS (s.release av) .typeError
   | .ARR_SET =>
     let (s, v) := s.pop
     let (s, iv) := s.pop
@@ -488,17 +514,17 @@ def execInstr (m : Module) (s : VmState) (instrStart : Nat) (op : Opc) (args : L
           let s := s.release (es.getD i .void)
           match s.heap.obj? a with
           | some (.arr et' es') => cont ({ s with heap := s.heap.setObj a (.arr et' (es'.set i v)) }.push av)
-          | _ => ({ s with heap := s.heap.markDangling }, .oob "array freed during ARR_SET")
-        else errS ((s.release av).release v) Gen.vmErr_outOfBounds
-      | _ => ({ s with heap := s.heap.markDangling }, .oob "dangling array")
-    | _ => errS ((s.release av).release v) Gen.vmErr_typeError
+          | _ => dang s "array freed during ARR_SET"
+        else errS ((s.release av).release v) .outOfBounds
+      | _ => dang s "dangling array"
+    | _ => errS ((s.release av).release v) .typeError
   | .ARR_LEN =>
     let (s, av) := s.pop
     match av with
     | .arr a => match s.heap.obj? a with
       | some (.arr _ es) => cont ((s.release av).push (.int (i64 es.length)))
-      | _ => ({ s with heap := s.heap.markDangling }, .oob "dangling array")
-    | _ => errS (s.release av) Gen.vmErr_typeError
+      | _ => dang s "dangling array"
+    | _ => errS (s.release av) .typeError
   | .ARR_SLICE =>
     let (s, ev) := s.pop
     let (s, sv) := s.pop
@@ -512,8 +538,8 @@ def execInstr (m : Module) (s : VmState) (instrStart : Nat) (op : Opc) (args : L
         let (h, r) := s.heap.alloc (.arr et part)
         let h := part.foldl Heap.retain h
         cont (({ s with heap := h }.release av).push (.arr r))
-      | _ => ({ s with heap := s.heap.markDangling }, .oob "dangling array")
-    | _ => errS (s.release av) Gen.vmErr_typeError
+      | _ => dang s "dangling array"
+    | _ => errS (s.release av) .typeError
   | .ARR_REMOVE =>
     let (s, iv) := s.pop
     let (s, av) := s.pop
@@ -522,9 +548,9 @@ def execInstr (m : Module) (s : VmState) (instrStart : Nat) (op : Opc) (args : L
       | some (.arr et es) =>
         if idxInRange (asI64 iv) es.length then
           cont ({ s with heap := s.heap.setObj a (.arr et (es.eraseIdx (asI64 iv).toNat)) }.push av)
-        else errS (s.release av) Gen.vmErr_outOfBounds
-      | _ => ({ s with heap := s.heap.markDangling }, .oob "dangling array")
-    | _ => errS (s.release av) Gen.vmErr_typeError
+        else errS (s.release av) .outOfBounds
+      | _ => dang s "dangling array"
+    | _ => errS (s.release av) .typeError
   | .ARR_LITERAL =>
     let (s, es) := s.popN (arg 1)
     let (h, a) := s.heap.alloc (.arr (arg 0) es)
@@ -535,24 +561,24 @@ def execInstr (m : Module) (s : VmState) (instrStart : Nat) (op : Opc) (args : L
     match sv with
     | .struct a => match s.heap.obj? a with
       | some (.struct _ fs) =>
-        if arg 0 ≥ fs.length then errS (s.release sv) Gen.vmErr_outOfBounds
+        if arg 0 ≥ fs.length then errS (s.release sv) .outOfBounds
         else let v := fs.getD (arg 0) .void; cont (((s.retain v).release sv).push v)
-      | _ => ({ s with heap := s.heap.markDangling }, .oob "dangling struct")
-    | _ => errS (s.release sv) Gen.vmErr_typeError
+      | _ => dang s "dangling struct"
+    | _ => errS (s.release sv) .typeError
   | .STRUCT_SET =>
     let (s, v) := s.pop
     let (s, sv) := s.pop
     match sv with
     | .struct a => match s.heap.obj? a with
       | some (.struct _ fs) =>
-        if arg 0 ≥ fs.length then errS ((s.release sv).release v) Gen.vmErr_outOfBounds
+        if arg 0 ≥ fs.length then errS ((s.release sv).release v) .outOfBounds
         else
           let s := s.release (fs.getD (arg 0) .void)
           match s.heap.obj? a with
           | some (.struct d' fs') => cont ({ s with heap := s.heap.setObj a (.struct d' (fs'.set (arg 0) v)) }.push sv)
-          | _ => ({ s with heap := s.heap.markDangling }, .oob "struct freed during STRUCT_SET")
-      | _ => ({ s with heap := s.heap.markDangling }, .oob "dangling struct")
-    | _ => errS ((s.release sv).release v) Gen.vmErr_typeError
+          | _ => dang s "struct freed during STRUCT_SET"
+      | _ => dang s "dangling struct"
+    | _ => errS ((s.release sv).release v) .typeError
   | .STRUCT_LITERAL =>
     let (s, fs) := s.popN (arg 1)
     let (h, a) := s.heap.alloc (.struct (arg 0) fs)
@@ -566,24 +592,24 @@ def execInstr (m : Module) (s : VmState) (instrStart : Nat) (op : Opc) (args : L
     match uv with
     | .union a => match s.heap.obj? a with
       | some (.union _ var _) => cont ((s.release uv).push (.int (i64 var)))
-      | _ => ({ s with heap := s.heap.markDangling }, .oob "dangling union")
-    | _ => errS (s.release uv) Gen.vmErr_typeError
+      | _ => dang s "dangling union"
+    | _ => errS (s.release uv) .typeError
   | .UNION_FIELD =>
     let (s, uv) := s.pop
     match uv with
     | .union a => match s.heap.obj? a with
       | some (.union _ _ fs) =>
-        if arg 0 ≥ fs.length then errS (s.release uv) Gen.vmErr_outOfBounds
+        if arg 0 ≥ fs.length then errS (s.release uv) .outOfBounds
         else let v := fs.getD (arg 0) .void; cont (((s.retain v).release uv).push v)
-      | _ => ({ s with heap := s.heap.markDangling }, .oob "dangling union")
-    | _ => errS (s.release uv) Gen.vmErr_typeError
+      | _ => dang s "dangling union"
+    | _ => errS (s.release uv) .typeError
   | .MATCH_TAG =>
     match s.peek 0 with
     | .union a => match s.heap.obj? a with
       | some (.union _ var _) =>
         if var == arg 0 then cont { s with ip := u32 (((instrStart : Int) + toI32 (arg 1)) % 4294967296).toNat }
         else cont s
-      | _ => ({ s with heap := s.heap.markDangling }, .oob "dangling union")
+      | _ => dang s "dangling union"
     | _ => cont s
   | .ENUM_VAL => cont (s.push (.enum (arg 1)))
   | .TUPLE_NEW =>
@@ -595,10 +621,10 @@ def execInstr (m : Module) (s : VmState) (instrStart : Nat) (op : Opc) (args : L
     match tv with
     | .tuple a => match s.heap.obj? a with
       | some (.tuple es) =>
-        if arg 0 ≥ es.length then errS (s.release tv) Gen.vmErr_outOfBounds
+        if arg 0 ≥ es.length then errS (s.release tv) .outOfBounds
         else let v := es.getD (arg 0) .void; cont (((s.retain v).release tv).push v)
-      | _ => ({ s with heap := s.heap.markDangling }, .oob "dangling tuple")
-    | _ => errS (s.release tv) Gen.vmErr_typeError
+      | _ => dang s "dangling tuple"
+    | _ => errS (s.release tv) .typeError
   | .HM_NEW | .HM_GET | .HM_SET | .HM_HAS | .HM_DELETE | .HM_KEYS | .HM_VALUES | .HM_LEN => unsup s "hashmap"
   | .GC_RETAIN => cont (s.retain (s.peek 0))
   | .CAST_INT =>
@@ -611,7 +637,7 @@ def execInstr (m : Module) (s : VmState) (instrStart : Nat) (op : Opc) (args : L
     | .enum x => cont (s.push (.int (i64 x)))
     | .str _ => match s.heap.strBytes? v with
       | some b => cont ((s.release v).push (.int (strtoll b)))
-      | none => ({ s with heap := s.heap.markDangling }, .oob "dangling string")
+      | none => dang s "dangling string"
     | _ => cont ((s.release v).push (.int 0))
   | .CAST_FLOAT => unsup s "float cast"
   | .CAST_BOOL => let (s, v) := s.pop; cont ((s.release v).push (.bool (truthy v)))
@@ -634,17 +660,35 @@ def execInstr (m : Module) (s : VmState) (instrStart : Nat) (op : Opc) (args : L
     cont ({ s with heap := h }.push (.clos a))
   | .PRINT | .PRINTLN =>
     let (s, v) := s.pop
-    match fmtVal s.heap (s.heap.cells.length + 2) v with
-    | none => unsup s "printing a float, closure, hashmap or cyclic value"
+    match fmtVal s.heap 66 [] v with
+    | none => unsup s "printing a float, closure or hashmap"
     | some b =>
       let b := if op == .PRINTLN then b ++ [10] else b
       cont ({ s with out := s.out ++ b }.release v)
   | .ASSERT =>
     let (s, v) := s.pop
-    if truthy v then cont (s.release v) else errS (s.release v) Gen.vmErr_assertFailed
+    if truthy v then cont (s.release v) else errS (s.release v) .assertFailed
   | .HALT => (s, .done)
+  | .CALL | .CALL_INDIRECT | .CLOSURE_CALL | .RET => (s, .unsupported "unreachable")
   | .OPAQUE_NULL => cont (s.push (.opaque 0))
   | .OPAQUE_VALID => let (s, v) := s.pop; cont (s.push (.bool (match v with | .opaque id => id != 0 | _ => false)))
+
+def execInstr (m : Module) (s : VmState) (instrStart : Nat) (op : Opc) (args : List Nat) : Step :=
+  match execData m (s.frames.headD default) s.toCore instrStart op args with
+  | some (c, o) => ({ s with toCore := c }, o.toOutcome)
+  | none =>
+    match op with
+    | .CALL => enterFn m s (args.getD 0 0) none
+    | .RET => doRet s false
+    | _ =>   -- CALL_INDIRECT / CLOSURE_CALL: pop a function value
+      let (c, f) := s.toCore.pop
+      let s' : VmState := { s with toCore := c }
+      match f with
+      | .clos a => match c.heap.obj? a with
+        | some (.clos fn _) => enterFn m s' fn (some a)
+        | _ => ({ s' with heap := c.heap.markDangling }, .dangling "dangling closure")
+      | _ => if op == .CLOSURE_CALL then ({ s' with toCore := c.release f }, .err RtErr.typeError.code)
+             else (s', .err RtErr.typeError.code)
 
 /-- one iteration of the dispatch loop of `vm_core_execute` (plus the trap handling of the
     harness for PRINT / ASSERT), or the implicit return when `ip` has left the function -/
@@ -658,25 +702,25 @@ def step (m : Module) (s : VmState) : Step :=
       if codeEnd > m.code.length then (s, .oob "code_end beyond the code section")
       else
         match decode ((m.code.drop s.ip).take (codeEnd - s.ip)) with
-        | none => errS s Gen.vmErr_decode
+        | none => (s, .err Gen.vmErr_decode)
         | some (i, n) =>
           match Opc.ofByte i.opcode with
-          | none => errS { s with ip := s.ip + n } Gen.vmErr_invalidOpcode
+          | none => ({ s with ip := s.ip + n }, .err Gen.vmErr_invalidOpcode)
           | some op => execInstr m { s with ip := s.ip + n } s.ip op i.operands
     else doRet s true
 
 /-- `vm_call_function(vm, fn, NULL, 0)` frame set-up -/
 def callFunction (m : Module) (s : VmState) (fnIdx : Nat) : Step :=
   match m.functions[fnIdx]? with
-  | none => errS s Gen.vmErr_undefinedFunction
+  | none => (s, .err Gen.vmErr_undefinedFunction)
   | some fn =>
-    if s.frames.length ≥ Gen.vmMaxFrames then errS s Gen.vmErr_callDepth
+    if s.frames.length ≥ Gen.vmMaxFrames then (s, .err Gen.vmErr_callDepth)
     else
       let base := s.stack.length
-      cont { s with
+      ({ s with
         stack := s.stack ++ List.replicate fn.localCount Val.void
         frames := { fnIdx := fnIdx, returnIp := s.ip, stackBase := base, localCount := fn.localCount, closure := none } :: s.frames
-        curFn := fnIdx, ip := fn.codeOffset }
+        curFn := fnIdx, ip := fn.codeOffset }, .running)
 
 /-- run until the core leaves `running`; `fuel` counts dispatched instructions (hook H1) -/
 def runLoop (m : Module) : Nat → VmState → Step
@@ -699,8 +743,8 @@ def initFn (m : Module) : Option Nat :=
 /-- `vm_execute`: `__init__` (if any) and then the entry point -/
 def execute (m : Module) (fuel : Nat) : Step :=
   let s0 : VmState := {}
-  if m.flags % 2 == 0 then errS s0 Gen.vmErr_undefinedFunction
-  else if m.entryPoint ≥ m.functions.length then errS s0 Gen.vmErr_undefinedFunction
+  if m.flags % 2 == 0 then (s0, .err Gen.vmErr_undefinedFunction)
+  else if m.entryPoint ≥ m.functions.length then (s0, .err Gen.vmErr_undefinedFunction)
   else
     let runFn (s : VmState) (f : Nat) (fuel : Nat) : Step × Nat :=
       match callFunction m s f with
